@@ -171,10 +171,22 @@ func normalizeNewHelpers(p *Program, ref []invEntry, prev map[string][]byte) map
 				if refKeys[id] {
 					// an unexported helper of the inventory whose signature changed is treated like a new helper: its
 					// callers are compared with the reference through its body, not through an interface that moved
-					if refSigs[id] == "" || refSigs[id] == anonSigString(obj) || ast.IsExported(fd.Name.Name) {
+					cur := anonSigString(obj)
+					if len(renameType) > 0 {
+						// types renamed with respect to the reference are spelled with their reference names
+						cur = identRe.ReplaceAllStringFunc(cur, func(w string) string {
+							for k, v := range renameType {
+								if k[1] == w {
+									return v
+								}
+							}
+							return w
+						})
+					}
+					if refSigs[id] == "" || refSigs[id] == cur || ast.IsExported(fd.Name.Name) {
 						continue
 					}
-					normalizeNotes = append(normalizeNotes, fmt.Sprintf("helper %s.%s changed its signature with respect to the reference inventory (%s -> %s): inlined into its callers for the analysis", relOrRoot(pk.PkgPath), fd.Name.Name, refSigs[id], anonSigString(obj)))
+					normalizeNotes = append(normalizeNotes, fmt.Sprintf("helper %s.%s changed its signature with respect to the reference inventory (%s -> %s): inlined into its callers for the analysis", relOrRoot(pk.PkgPath), fd.Name.Name, refSigs[id], cur))
 				}
 				if _, renamed := renameFn[id]; renamed {
 					continue
